@@ -82,6 +82,9 @@ func checkSrc(src string, sem bool) verdict {
 	ast2, err := safeParse("a.thrift", out)
 	if err != nil {
 		v.Class, v.Detail = "reparse-error", "the dumped text is rejected by the parser: "+firstLine(err.Error())
+		if out == "" {
+			v.Class = "reparse-error:empty-output"
+		}
 		return v
 	}
 	d := diffAST(ast, ast2)
@@ -354,7 +357,7 @@ func (r *runner) report(p Prog, v verdict, sem bool) {
 	// one shrink per failure class and run is enough to name the class; further programs of the same class
 	// are shrunk too (up to a budget) because they may minimise to different inputs.
 	lim := 2
-	if v.Class == "reparse-error" || strings.HasPrefix(v.Class, "diff:ConstValue") {
+	if strings.HasPrefix(v.Class, "reparse-error") || strings.HasPrefix(v.Class, "diff:ConstValue") {
 		lim = 8
 	}
 	if r.out.Stats["shrunk:"+v.Class] >= lim {
@@ -386,7 +389,7 @@ func failKey(p Prog, sem bool) (key string, q Prog, v verdict) {
 	var nums []string
 	var cpp *Ty
 	// an AST without anything in it is dumped as the empty text: canonical witness = a comment-only file
-	if v0 := checkSrc(p.Render(), sem); v0.Class == "reparse-error" && v0.Dumped == "" {
+	if v0 := checkSrc(p.Render(), sem); v0.Class == "reparse-error:empty-output" {
 		if cv := checkSrc("// empty\n", sem); cv.Class != "" && cv.Class != "gen-reject" {
 			return "idl:// empty", Prog{Defs: []Def{{Kind: "", Cm: "// empty"}}}, cv
 		}
@@ -924,9 +927,14 @@ func run(repo, dir string, seed uint64, tier, trimmer string) error {
 	// every round-trip failure met so far (so that each run re-checks them whatever the seed)
 	one, i32 := 1, Ty{Name: "i32"}
 	_ = one
-	cst := func(t string, v CV) Prog { return Prog{Defs: []Def{{Kind: "const", Name: "a", Ty: Ty{Name: t}, Val: v}}} }
+	cst := func(t string, v CV) Prog {
+		return Prog{Defs: []Def{{Kind: "const", Name: "a", Ty: Ty{Name: t}, Val: v}}}
+	}
 	lit := func(q, raw string) CV { return CV{Kind: "lit", Lit: Lit{q, raw}} }
-	svc := func(f Func) Prog { f.Name, f.Void = "b", true; return Prog{Defs: []Def{{Kind: "service", Name: "a", Funcs: []Func{f}}}} }
+	svc := func(f Func) Prog {
+		f.Name, f.Void = "b", true
+		return Prog{Defs: []Def{{Kind: "service", Name: "a", Funcs: []Func{f}}}}
+	}
 	zero := CV{Kind: "num", Num: "0"}
 	fixed := []Prog{
 		cst("string", lit("'", `a\"b`)), cst("string", lit("'", `\"`)), cst("string", lit(`"`, "##34;")), cst("string", lit(`"`, "#OUTQUOTES")),
@@ -1077,6 +1085,9 @@ func (r *runner) trimmerProject(trimmer, dir string, idx int) error {
 	cmd := exec.Command(trimmer, "-r", src, "-o", outDir, mainPath)
 	cmd.Dir = root
 	log, err := cmd.CombinedOutput()
+	if _, isExit := err.(*exec.ExitError); err != nil && !isExit {
+		return fmt.Errorf("cannot run the trimmer binary: %v", err)
+	}
 	if err != nil {
 		r.out.Count("trimmer:binary-failed")
 		r.out.Fail(vl.OracleFail{Key: "trimmer-exit:" + firstLine(string(log)), What: "trimmer -r exits non-zero on an accepted project",
